@@ -853,7 +853,10 @@ impl Scenario for Bridge {
         let mp = out.main_panic.clone();
         absorb_outcome(&mut r, out);
         fill_report(&mut r, plan, &h);
-        r.violation = check_c20(plan, &h);
+        // a run cut off by the step budget has no complete history to judge
+        if !matches!(failure, Some(detsim::Failure::StepLimit { .. })) {
+            r.violation = check_c20(plan, &h);
+        }
         r.sample = Some(json!({"keys": plan.get("keys"), "emit_zero": plan.get("emit_zero"), "history": h.iter().take(80).map(|e| format!("#{} t{} {:?}", e.seq, e.tid, e.k)).collect::<Vec<_>>()}));
         if r.violation.is_none() {
             match failure {
@@ -1030,7 +1033,10 @@ impl Scenario for BridgeReporter {
         if periodic >= 2 {
             r.probe("periodic_readout_by_real_reporter_task", periodic as u64 - 1);
         }
-        r.violation = check_c20(plan, &h);
+        // a run cut off by the step budget has no complete history to judge
+        if !matches!(failure, Some(detsim::Failure::StepLimit { .. })) {
+            r.violation = check_c20(plan, &h);
+        }
         if r.violation.is_none() && failure.is_none() && mp.is_none() {
             let joined = h.iter().find(|e| matches!(e.k, BK::Note("all_joined"))).map(|e| e.seq);
             let shut = h.iter().find(|e| matches!(e.k, BK::Note("sink_shutdown"))).map(|e| e.seq);
